@@ -161,7 +161,7 @@ func (s *State) JudgeAdmin(a Admin) AdminVerdict {
 type Env struct {
 	// deposit | reescrow | ftf_pause | ftf_unpause | blacklist | unblacklist | burn_limit |
 	// cctp_pause_burn | cctp_unpause_burn | cctp_pause_msgs | cctp_unpause_msgs | hyp_unenroll | hyp_enroll |
-	// next_block | send_disable | send_enable (bank's per-denomination send switch, Denom)
+	// next_block | upgrade (in-place migration from consensus version Amount) | send_disable | send_enable (bank's per-denomination send switch, Denom)
 	// (the Hyperlane steps use Denom for the token and Amount for the domain; next_block uses Amount
 	// for the number of blocks the chain advances by)
 	Kind    string `json:"kind"`
@@ -317,6 +317,34 @@ func (m *Machine) doEnv(e Env) world.TxResult {
 		cur := m.W.App.TransferKeeper.GetTotalEscrowForDenom(m.Ctx, e.Denom)
 		m.W.App.TransferKeeper.SetTotalEscrowForDenom(m.Ctx, cur.Add(coin))
 		return world.TxResult{}
+	case "upgrade":
+		// an in-place upgrade: the module manager runs the migrations the module registers, from
+		// consensus version Amount (1 by default) to the current one. On a tree whose module is at
+		// version 1 there is nothing to run (reported as a failed step: nothing happened).
+		vm := m.W.App.ModuleManager.GetVersionMap()
+		cur := vm["orbiter"]
+		from := uint64(1)
+		if amt.IsUint64() && amt.Uint64() >= 1 {
+			from = amt.Uint64()
+		}
+		if from >= cur {
+			return world.TxResult{Err: fmt.Errorf("no migration to run: the module is at consensus version %d", cur)}
+		}
+		vm["orbiter"] = from
+		c, write := m.Ctx.CacheContext()
+		var res world.TxResult
+		func() {
+			defer func() {
+				if r := recover(); r != nil {
+					res.Panic, res.Err = r, fmt.Errorf("panic: %v", r)
+				}
+			}()
+			_, res.Err = m.W.App.ModuleManager.RunMigrations(c, m.W.App.Configurator(), vm)
+		}()
+		if res.Err == nil {
+			write()
+		}
+		return res
 	case "send_disable", "send_enable":
 		// the bank's per-denomination send switch, set by the bank module's authority (governance):
 		// it governs bank MsgSend (the internal route), not the keeper-level movements
